@@ -388,6 +388,13 @@ def gen_c13(ctx):
     rng = common.SplitMix64(ctx.seed)
     quick = ctx.tier == "quick"
     specs = []
+    # pipeline | pipeline with everything configured on the operands before composing: the left operand's input
+    # (data, file, pipe) and the right operand's output survive; every split point
+    for n in (4, 5):
+        for m in range(2, n - 1):
+            for term, i, o in [("capture", "D", "P"), ("join", "F", "F"), ("stream_stdin", "P", "F"), ("stream_stdout", "F", "P")]:
+                st = filters(n, rng)
+                specs.append(spec(n, st, i=i, o=o, shape="P%db" % m, term=term, data=100, read="all", write=100 if term == "stream_stdin" else 0))
     sizes = [0, 1, 100, 20000] if quick else [0, 1, 7, 100, 5000, 20000, 120000]
     for n in ([2, 3, 4, 5] if quick else [2, 3, 4, 5, 6, 8]):
         for shape in shapes_for(n, rng):
@@ -409,7 +416,7 @@ def gen_c13(ctx):
     return specs
 
 
-BEH_BEFORE = ["C", "Y", "S", "Ta:0:1", "G5:0", "G200000:0", "X3"]
+BEH_BEFORE = ["C", "Y", "S", "Ta:0:1", "G5:0", "G200000:0", "X3", "W"]
 
 
 def gen_c14(ctx):
@@ -482,6 +489,12 @@ def gen_c12(ctx):
         specs.append(spec(2, ["Y", "C"], term="stream_stdout", read=rd, sib=1))
     specs.append(spec(1, ["C"], o="F", term="stream_stdin", write=10, sib=1))
     specs.append(spec(1, ["Y"], o="P", term="popen", sib=1))
+    # the reader of a pipeline whose stdin is a pipe the caller cannot reach: released by the drop before any wait
+    specs.append(spec(2, ["C", "C"], i="P", term="stream_stdout", read="0"))
+    specs.append(spec(3, ["C", "C", "C"], i="P", term="stream_stdout", read="0"))
+    # detached members are neither waited for nor reaped by an adapter's drop
+    specs.append(spec(2, ["Z", "C"], det="11", term="stream_stdout", read="0"))
+    specs.append(spec(2, ["Z", "S"], det="11", o="F", term="stream_stdin", write=10))
     specs.append(spec(1, ["Y"], o="P", term="popen", det="1"))      # detached: the drop neither blocks nor reaps
     specs.append(spec(1, ["C"], i="P", o="F", term="popen", det="1"))
     specs.append(spec(1, ["Y"], o="P", term="popen"))                # plain Popen with a pipe: Popen::drop releases it
@@ -556,6 +569,51 @@ def extra_c08(ctx):
     ctx.cov["pipeline_cases"] = len(done)
     ctx.cov["pipeline_commands_inspected"] = sum(len(c["abs"][1]["stages"]) for c in done)
     ctx.cov["pipeline_model_divergences"] = ndiv
+
+
+def gen_c01(ctx):
+    """C01 against the real kernel: a command that closes its stdout and stderr and lives on (K<ms>).  End-of-file on
+    the parent's pipes is all the Communicator waits for, so it must return long before the command ends."""
+    specs = []
+    for ms in ([2500] if ctx.tier == "quick" else [2000, 2500, 3500]):
+        for i, e in [("I", "I"), ("D", "I"), ("D", "P"), ("I", "P")]:
+            specs.append(spec(1, ["K%d" % ms], i=i, o="P", e=e, term="communicate", data=20, read="all"))
+        for n in (2, 3):
+            for i in ("I", "D"):
+                # a first command that ignores a piped stdin gives EPIPE (C02's subject): feed a copier
+                first = "G3:0" if i == "I" else "C"
+                specs.append(spec(n, [first] + ["C"] * (n - 2) + ["K%d" % ms], i=i, o="P", term="communicate", data=20, read="all"))
+    return specs
+
+
+def extra_c01(ctx):
+    """the exchange ends when the child has closed its streams, whether or not it is still running"""
+    specs = gen_c01(ctx)
+    cases, stderr = run_harness(ctx, specs)
+    done = [c for c in cases if c.get("complete") or c.get("hang")]
+    if len(done) != len(specs):
+        ctx.broken_correspondence({"what": f"pipe harness ran {len(done)} of {len(specs)} cases", "stderr": stderr.decode(errors='replace')[-800:]})
+    n_ok = 0
+    for c in done:
+        c["abs"] = abstract(c["log"])
+        def viol(msg, c=c):
+            if len(ctx.violations) < 3:
+                ctx.violation({"engine": "pipe", "spec": c["spec"], "what": msg, "events": " ".join(c["abs"][0]),
+                               "log": c["log"][:120], "replay_cmd": "./check C01 (real-kernel part)"})
+        sleep_ms = int(c["kv"]["stages"].split(",")[-1][1:])
+        if c.get("hang"):
+            viol("the call never returned although the command had closed its stdout and stderr: " + hang_reason(c))
+        elif c["res"][0] != "ok":
+            viol("the exchange failed: " + " ".join(c["res"]))
+        elif int(c["stat"]["ms"]) > sleep_ms - 700:
+            viol("the command closed its stdout and stderr at once and went on running for %d ms; the exchange returned only "
+                 "after %s ms, i.e. it waited for the process and not for end-of-file" % (sleep_ms, c["stat"]["ms"]))
+        elif c["sums"].get("GOTOUT", {}).get("len") != "2":
+            viol("the captured output is %s, the command wrote the 2 bytes 'k\\n'" % c["sums"].get("GOTOUT"))
+        else:
+            n_ok += 1
+    ctx.cov["real_kernel_eof_cases"] = len(done)
+    ctx.cov["real_kernel_eof_cases_ok"] = n_ok
 
 
 def run_harness(ctx, specs):
